@@ -27,6 +27,8 @@ class Ptr(T):
 class Arr(T):
     def __init__(s, n, e): s.n = n; s.e = e
     def __repr__(s): return '[%d x %r]' % (s.n, s.e)
+class Vec(Arr):        # <N x T>: laid out like an array (only load/store/gep/extract/insert are supported, E2 only)
+    def __repr__(s): return '<%d x %r>' % (s.n, s.e)
 class Named(T):
     def __init__(s, name): s.name = name
     def __repr__(s): return '%' + s.name
@@ -131,7 +133,7 @@ def parse_type(p):
                     p.expect(',')
             p.expect('>'); t = Lit(fs, True)
         else:
-            raise Unsupported('vector type')
+            n = int(p.next()[1]); p.expect('x'); e = parse_type(p); p.expect('>'); t = Vec(n, e)
     else:
         raise Unsupported('type tok %r' % v)
     while True:
@@ -201,7 +203,7 @@ def parse_module(text):
 
 LINKAGE = {'private','internal','linkonce_odr','weak_odr','external','dso_local','unnamed_addr',
            'local_unnamed_addr','hidden','common','weak','linkonce','available_externally','constant','global',
-           'noundef','nonnull','signext','zeroext','noalias','thread_local','appending'}
+           'noundef','nonnull','signext','zeroext','noalias','thread_local','appending','fastcc','ccc','coldcc'}
 
 def parse_global(m, s):
     p = P(lex(s))
@@ -409,6 +411,7 @@ class Emit:
             return s.ctype_fwd(e) + '*'
         if isinstance(t, Named):
             s.need_struct(t); return 'struct S_' + cid(t.name)
+        if isinstance(t, Vec): raise Unsupported('vector type in E1')
         if isinstance(t, Lit) or isinstance(t, Arr):
             return s.need_anon(t)
         if isinstance(t, Fn):
